@@ -166,6 +166,26 @@ Theorem c17_metric_name_mode :
 Proof. exact metric_name_mode_spec. Qed.
 Print Assumptions c17_metric_name_mode.
 
+(* ---- the summary printed at the end of Tuner.run() -------------------------
+   With a single mode it is print_best_metric_found for the first metric (c17_best_tuner
+   applies). With a mode LIST the statement "the reported trial attains the optimum per
+   mode" is FALSE of the faithful model: the list is read as "max". Witness replayed on
+   the real code by the driver (finding, signature part=final_summary). *)
+Theorem c17_final_summary_one_mode :
+  forall name names m ts,
+    tuner_final_summary (name :: names) (OneMode m) ts = print_best ts name m.
+Proof. exact final_summary_one_mode. Qed.
+Print Assumptions c17_final_summary_one_mode.
+
+Theorem c17_final_summary_refuted :
+  exists (names : list key) (ms : modes) (history : list (list Z * list (Z * dict))) name t v t' x,
+    metric_name_mode names ms (ByIndex 0) = Some (name, Min) /\
+    tuner_final_summary names ms (ts_run history) = Some (t, v) /\
+    In x (counted name (of_trial t' (handed history))) /\
+    better Min x v = true.
+Proof. exact final_summary_mode_list_wrong. Qed.
+Print Assumptions c17_final_summary_refuted.
+
 (* ---- best configuration of the loaded experiment ---------------------------
    For EVERY table: the reported row j holds a non-NaN value x of the metric, no row
    holds a strictly better one, every earlier row holding a value holds a strictly
